@@ -129,6 +129,14 @@ func (w *World) monitorRequests() {
 			if has("ErrSubmit") && !failedWrite && kind != "disc" {
 				w.Violate("C11", "submit-error-without-failed-write", "%s op %d (%s) returned ErrSubmit but none of its writes failed", a.spec.Name, r.Idx, op.Kind)
 			}
+			// a persisted publish that returned an error was dropped: no record of it
+			if kind == "pub1" && r.Err != nil && len(op.Msg) >= 4 {
+				for _, e := range w.log[from:to] {
+					if e.K == "store" && e.S == "save" && e.R == "" && bytesContains(e.B, op.Msg) {
+						w.Violate("C14", "refused-publish-stored", "%s op %d (%s) returned %s, yet its packet was saved under key %#x", a.spec.Name, r.Idx, op.Kind, cl, e.N)
+					}
+				}
+			}
 			// the packet of this request on the wire
 			var mine *wp
 			for i := range tl {
@@ -240,6 +248,8 @@ func (w *World) pingVanished(a *actor) bool {
 	}
 	return false
 }
+
+func bytesContains(b, sub []byte) bool { return containsPacket(b, sub) }
 
 func containsPacket(b, p []byte) bool {
 	for i := 0; i+len(p) <= len(b); i++ {
